@@ -45,7 +45,7 @@ def check_pass_through(ctx):
                    'and current rule name unchanged' if not bad else
                    'a nested check is not evaluated with the caller\'s own '
                    'arguments: ' + '; '.join(bad))
-    ctx.floor('C06.PASS-THROUGH', n, 4, 'nested _check calls')
+    ctx.floor('C06.PASS-THROUGH', n, 2, 'nested _check calls')
 
 
 def check_late_lookup(ctx):
